@@ -15,6 +15,10 @@ SKINS = {
     "mnemonic-co": {"prefixes": ("c/", "o/"), "dir": "lib"},
     "quoted-nonascii": {"quote": True},
     "quoted-nonascii-dir": {"quote": True, "dir": "d1/d2"},
+    # directories that look like git's own a/ b/ c/ i/ o/ w/ prefixes
+    "dir-named-a": {"dir": "a"},
+    "dir-named-w": {"dir": "w/i"},
+    "dir-named-b-mnemonic": {"dir": "b", "prefixes": ("c/", "w/")},
 }
 
 
